@@ -34,6 +34,7 @@ type C03Plan struct {
 	KeyCols  []int     `json:"key_cols,omitempty"` // composite key: column indices in declared key order (overrides the single id key)
 	Huge     bool      `json:"huge,omitempty"`     // ingest only: N may exceed 1024 blocks
 	Rekey    string    `json:"rekey,omitempty"`    // ingest: the same rows were committed before under another key with the same row order: "widen" (id -> id,c1), "keyless" (id -> no key), "narrow" (id,c1 -> id)
+	Retain   bool      `json:"retain,omitempty"`   // the store keeps the slices handed to Set (a transactional store with pending writes) instead of copying them
 	Retry    bool      `json:"retry,omitempty"`    // receive: a first receipt dies when the table object is written, prune runs, the transfer is repeated
 	DupEdge  bool      `json:"dup_edge,omitempty"` // ingest: the input repeats the lines whose keys end / start a block (positions 254, 255, 509, 510 in key order)
 }
@@ -58,6 +59,7 @@ func init() {
 				p.Rekey = Pick(r, []string{"widen", "keyless", "narrow"})
 			}
 			p.Retry = r.Chance(0.3)
+			p.Retain = r.Chance(0.2)
 			if r.Chance(0.4) {
 				p.NCols = max(p.NCols, r.Range(2, 5))
 				p.KeyCols = r.Perm(p.NCols)[:r.Range(2, min(4, p.NCols))]
@@ -147,6 +149,9 @@ func execC03(t *testing.T, raw json.RawMessage, res *Result) {
 	w := &World{}
 	st := NewStore("L", w)
 	st.Monitor = MonitorC06
+	if p.Retain {
+		res.probe("store_retains_slices", 1)
+	}
 	var sum []byte
 	checkStore := st
 	switch p.Producer {
@@ -173,6 +178,7 @@ func execC03(t *testing.T, raw json.RawMessage, res *Result) {
 			st.TakeMonErrs()
 			res.probe("same_rows_under_another_key_first", 1)
 		}
+		st.Retain = p.Retain // from here on: the producer under test
 		run := RunIngest(t, st, CSVText(cols, input, ','), pk, p.Cfg)
 		if bubbleProblems(res, run.Out, "ingest") {
 			return
@@ -226,6 +232,7 @@ func execC03(t *testing.T, raw json.RawMessage, res *Result) {
 		}
 		var out *mergeOutcome
 		var mErr error
+		st.Retain = p.Retain
 		bo := Bubble(t, 0, func(mainDone *bool) {
 			out, mErr = runMerge(t, st, base, [][]byte{b1, b2}, 0, "blocks", p.Cfg.Workers)
 			*mainDone = true
@@ -261,6 +268,7 @@ func execC03(t *testing.T, raw json.RawMessage, res *Result) {
 		}
 		dst := NewStore("dst", w)
 		dst.Monitor = MonitorC06
+		dst.Retain = p.Retain
 		if p.Retry {
 			// first attempt: the write of the table object fails; then prune (an unreachable commit makes
 			// it do its work); then the transfer is repeated from scratch
@@ -394,6 +402,7 @@ func execC03(t *testing.T, raw json.RawMessage, res *Result) {
 		rs.Set("heads/main", csum)
 		var derr error
 		var newHead []byte
+		st.Retain = p.Retain
 		bo := Bubble(t, 0, func(mainDone *bool) {
 			d := doctor.NewDoctor(st, rs, conf.User{Name: "u", Email: "u@x"}, logr.Discard())
 			ch, errCh, err := d.Diagnose(context.Background(), nil, nil, nil)
